@@ -5,7 +5,7 @@ import re
 def crash_nontrivial(tok, res):
     # anything that reached a handler: accepted logins, storms, the witnesses, watchdog passes
     return tok[0] in ("login", "negpool", "storm", "cstorm", "race6", "stun", "watch", "stat", "wconn", "wstorm", "tear",
-                      "relogin", "gleave", "nstorm", "swc", "closerace", "pstorm", "routes") or \
+                      "relogin", "gleave", "nstorm", "swc", "closerace", "pstorm", "routes", "ureq", "ustorm", "canon", "ptear", "gchurn") or \
         (tok[0] == "msg" and tok[2] in ("NewProxy", "CloseProxy", "Ping", "NatHoleVisitor", "NatHoleClient",
                                         "NatHoleReport", "NewWorkConn", "NewVisitorConn", "Login"))
 
@@ -27,12 +27,14 @@ def crash_class(res):
         if m:
             return "stat(proxyOK %s, refused %s, natResp %s)" % tuple(b(int(x)) for x in m.groups())
         return "stat"
+    if re.fullmatch(r"x[0-9a-f]*", res):   # canon: the canonical host
+        return "host(empty)" if res == "x" else "host"
     return res[:72]
 
 
 PROP = {
         "level": "other",
-        "gens": ["LockFacts", "NilFacts", "LockOrder"],
+        "gens": ["LockFacts", "NilFacts", "LockOrder", "IndexFacts", "PluginClose"],
         "theorems": [
             # 1. lock discipline over regenerated facts
             "Frp.C16.all_guarded_partial", "Frp.C16.unguarded_exact", "Frp.C16.all_guarded_status", "Frp.C16.all_guarded",
@@ -74,6 +76,13 @@ PROP = {
             # 7. StartWorkConn addresses (client)
             "Frp.C16.startwork_crash_iff", "Frp.C16.startwork_safe_partial", "Frp.C16.startwork_witness", "Frp.C16.startwork_fixed",
             "Frp.C16.startwork_fixed_agrees", "Frp.C16.startwork_status", "Frp.C16.startwork_resolve_fact",
+            # 8. user-facing parsers: regenerated index / slice sites, CanonicalHost with Go's indexing explicit
+            "Frp.C16.index_sites_guarded", "Frp.C16.index_ok_sound", "Frp.C16.index_sites_present", "Frp.C16.index_unguarded_rejected",
+            "Frp.C16.index_unguarded_panics", "Frp.C16.hasPort_never_panics", "Frp.C16.canonicalHost_never_panics",
+            "Frp.C16.guard_does_not_survive_trim",
+            # 9. frpc teardown against active plugin requests (regenerated Close methods of pkg/plugin/client)
+            "Frp.C16.plugin_close_nonblocking", "Frp.C16.plugin_close_present", "Frp.C16.teardown_relogs", "Frp.C16.teardown_relogs_as_is",
+            "Frp.C16.shutdown_wedges_forever", "Frp.C16.shutdown_mux_relogs", "Frp.C16.shutdown_witness",
             # 4. engine predicate
             "Frp.C16.holdsOn_sound", "Frp.C16.model_holdsOn_login", "Frp.C16.model_holdsOn_login_fixed",
         ],
@@ -121,7 +130,23 @@ PROP = {
                 "and as group members, in shuffled order; `closerace` = 1-6 senders flood the endpoint of a tcp / tcp-group / tcpmux-group / http-group (udp: corpus, until the fix) proxy with user "
                 "traffic while the proxy is closed (CloseProxy / drop), 3-12 rounds; `pstorm` = 4-12 sessions register and close proxies of the "
                 "port-less and routed types (own and contested names / domains / groups) without waiting for the answers. Witnesses of the two known findings live in "
-                "harness/corpus/crash/",
+                "harness/corpus/crash/. USER side (eng_crash_user.go; the child's frps also has a vhost https port, its real frpc also http / https / "
+                "tcpmux proxies - with and without httpUser - and a udp proxy to route to): `ureq <listener> <bytes>` = one user connection (datagram) "
+                "to the tcpmux CONNECT port / vhost http port / vhost https port / a tcp proxy port / a udp proxy port, FIN, the answer class; "
+                "`ustorm` = 4-12 users at once; authorities, Host values and SNI names come from ONE class: every string of length <= 2 over "
+                "{. : [ ] a 0} (each sent as a well-formed CONNECT, with or without port), longer ones sampled, base x suffix compositions (empty, "
+                "root dot, labels, bracketed / bare IPv6 literals, existing routes in any case x dots and ports of every shape), huge, non-ASCII, "
+                "control bytes; around them well-formed requests and a malformed stream (request lines, versions, line ends, header sizes / counts, "
+                "(Proxy-)Authorization of every shape, chunking, h2c prefaces / upgrades, absolute / authority / asterisk targets, truncation, "
+                "pipelining); ClientHellos are built by hand (any SNI bytes) and truncated / bit-flipped / length-corrupted; `canon <host>` = "
+                "httppkg.CanonicalHost in the child WITHOUT recover, compared with Host.canonicalHost on ASCII hosts; `ptear <plugin> <mux> <hold> "
+                "<n>` = a fresh real frpc (tcpMux off / on) whose proxy is backed by http2http / http2https / https2http / https2https / http_proxy "
+                "/ static_file against a scripted server: one complete request, then n requests held ACTIVE (backend does not answer / user stops "
+                "reading a 64 MiB response / user does not finish the body), the server cuts the control connection: frpc must log in again "
+                "within 3 s, register the proxy again and serve a request; the Lean engine runs UserIn.prun on the regenerated Close method; "
+                "`gchurn <kind> <rounds>` = two sessions take turns being the only member of one tcp / tcpmux / http group, every round the "
+                "member's leave and the other's join are written back to back in alternating order (50-400 rounds, no gate: the gates of `gleave` "
+                "park the join only), every join must be answered within 2 s and both sessions must answer a Ping",
         "trusted": COMMON_TRUST + [
             "translator translate/gen_lockfacts.go (go/ast, syntactic): regenerates Frp/Gen/LockFacts.lean on every run - every access to "
             "the 24 designated map / member-list fields with the lock mode held at that statement (Lock/RLock/Unlock/RUnlock in statement "
@@ -159,6 +184,26 @@ PROP = {
             "buffer, udp work-connection reader + consumer, RegisterWorkConn against the worker's teardown steps) written by hand; the teardown "
             "model is tied by register_recover_fact (the regenerated guard of the send in RegisterWorkConn) and by the gated `tear` ops; NewControl tied by newcontrol_source (source text) and by the engine's login ops; the handler tables by "
             "dispatch_facts; Go's `makechan` panics iff size < 0 (or above maxAlloc, unreachable: capacity <= maxPoolCount+10)",
+            "translator translate/gen_indexfacts.go (go/ast, syntactic): regenerates Frp/Gen/IndexFacts.lean on every run - every x[i] / x[a:b] "
+            "of the non-test files of pkg/util/http, pkg/util/vhost, pkg/util/tcpmux with the operand's kind (map / string-slice-array / "
+            "unknown, resolved from the package's declarations without a type checker), the bounds (constant, len(v), i, i+k, len(v)-k, other) "
+            "and the guards that dominate it (conditions of enclosing if / for, negated conditions of earlier ifs whose body leaves, && / || "
+            "operands; len comparisons, != \"\", strings.Index* results tested >= 0, strings.Count of a non-empty literal tested != 0); a fact "
+            "about a variable is dropped at every assignment to it (loop-assigned variables at the loop head), branches merge by intersection, "
+            "closures start empty. Trusted: these flow rules and that nothing else writes the variable (address-taken variables are treated as "
+            "assigned). NOT covered: other panics of these packages (nil maps, type assertions), the standard library's own parsers "
+            "(net/http ReadRequest, crypto/tls) and golib - those are exercised by the `ureq` / `ustorm` ops only",
+            "translator translate/gen_pluginclose.go (go/ast, syntactic): regenerates Frp/Gen/PluginClose.lean on every run - the calls of every "
+            "Close() method of pkg/plugin/client in source order, classified by the declared type of the receiver's field (*http.Server Close / "
+            "Shutdown with or without a context.WithTimeout context, the package's Listener, mutexes, close(ch), receives / select / Wait, "
+            "other), calls to top-level functions of the package followed (depth 3). Pinned by hand (Props/C16.lean closeCalleesPinned): "
+            "vnet Controller.UnregisterServerConn takes a mutex and deletes a map entry; from net/http: (*Server).Close closes listeners and "
+            "all connections and returns, (*Server).Shutdown returns only when no connection is active or its context is done",
+            "model Frp/Model/UserInput.lean (index-site judgement with its semantics, hasPort / CanonicalHost with Go's indexing explicit, "
+            "client Control.worker from the end of the dispatcher to the next login) written by hand; hasPort / CanonicalHost tied by the "
+            "`canon` ops (real function, no recover, compared on every ASCII host generated) and by C06's router engine; the teardown model by "
+            "plugin_close_nonblocking (regenerated) and the `ptear` ops; net.SplitHostPort / strings.TrimSuffix / strings.ToLower are total "
+            "(standard library)",
             "exploration (obligations 3-4 of DESIGN 6 C16) is a search, not a proof: no crash found is not absence of crashes",
         ],
         "assumptions": [
@@ -172,7 +217,7 @@ PROP = {
     }
 
 META = {
-        "engine": "lean+translate(LockFacts,NilFacts,LockOrder)+harness(crash)",
+        "engine": "lean+translate(LockFacts,NilFacts,LockOrder,IndexFacts,PluginClose)+harness(crash)",
         "design_ref": "DESIGN.md §6 C16",
         "technique": "go/ast extraction of lock states, channel close/send guards, handler tables, NewControl's allocation and the uses of "
                      "pointer-typed message fields into Lean facts "
@@ -200,7 +245,16 @@ META = {
                 "steps kills frps (teardown_safe_as_is, all label orders); without it an offer between close(workConnCh) and close(doneCh) does, "
                 "whether or not doneCh is tested up front (teardown_unrecovered_dies). Exploration: ~660 op lines (thousands of messages, ~1500 "
                 "work connections, ~5000 frames on them, ~20 gated teardowns) per quick run against a real frps/frpc in a child process, watchdog "
-                "after every storm.",
+                "after every storm. Round 4 (USER side): every one of the 37 indexing / slicing expressions of pkg/util/http, pkg/util/vhost, "
+                "pkg/util/tcpmux (regenerated) is a map lookup (24) or dominated by a guard that implies Go's bounds check (13: "
+                "index_sites_guarded; index_ok_sound for every assignment of lengths and integers satisfying the guards); hasPort / CanonicalHost "
+                "with `host[0]` able to panic never panic and equal Host.canonicalHost on every byte string (canonicalHost_never_panics); a guard "
+                "does not survive strings.TrimSuffix (guard_does_not_survive_trim). frpc teardown: every Close() of pkg/plugin/client "
+                "(regenerated, 11 methods) makes only calls that cannot wait for a user, hence frpc reaches the next login within four turns of "
+                "the worker for every number of active requests, tcpMux on or off, every interleaving with the users (teardown_relogs_as_is); a "
+                "Shutdown without deadline never gets there with tcpMux off and one request that does not end (shutdown_wedges_forever), and "
+                "does with tcpMux on (shutdown_mux_relogs). Exploration: +~100 hostile user requests one by one, ~7 user storms, ~115 hosts "
+                "through CanonicalHost, ~11 plugin teardowns with held requests per quick run.",
         "note": "Three findings, each reproduced on the real code by the engine and kept behind a switch: C16.precheckLockIsFixed "
                 "(hooks/C16-fix-precheck-lock.patch), Crash.poolCountIsFixed (hooks/C16-fix-poolcount.patch), Crash.discoverIsFixed "
                 "(hooks/C16-fix-discover-close.patch). Trusted: Lean kernel; the syntactic extractor; the pinned single-owner tables; the "
